@@ -18,6 +18,8 @@ def main(argv):
         print(__doc__)
         return 2
     cmd = argv[1]
+    from simkit.core import die_with_parent
+    die_with_parent()
     if cmd == "run":
         from simkit.driver import run_check
         return run_check(argv[2].upper(), argv[3])
